@@ -43,6 +43,15 @@ next refresh re-lists it) and makes the next os.scandir(d) issued by xonsh.comma
 may raise or answer "not found" and is not judged; from the next lookup on every view has to
 agree with the file system again.
 
+Listings handed out lazily are consumed ACROSS every checked transition: before the event each of
+iter(cache), cache.iter_commands(), iteration of cache.all_commands, cache.lazyiter() and the real
+completer generator xonsh.completers.commands.complete_command is started and k = 0 / 1 items are
+taken; after the event and the refresh it causes the rest is consumed.  It must not raise and must
+deliver every command that the complete listing shows both before and after the event
+(`iter-resumed:<view>:raised-<Exc>` / `:missed-command`).  The concurrent version of the same
+question (a refresh in one thread while another thread queries the cache, all interleavings with a
+bounded number of preemptions) is xv/c08_sched.py, run after the BFS (`sched:...` keys).
+
 Only mismatches that are NEW on a state (not already present, identically, on the state before the
 event) are reported, and a mismatch of a cache view is classified by REPAIR TRANSFORMS, so that
 keys name root causes and not inputs:
@@ -289,7 +298,7 @@ class Harness:
         self.hist = []
         self.clock = 0
         self.scan_fired = 0
-        self._scan_n = [0, 0, 0, 0]
+        self._scan_n = [0, 0, 0, 0, 0, 0]
         self.m_path = []
         self.m_cwd = "w"
 
@@ -360,6 +369,9 @@ class Harness:
         o = 2 if fault else 0
         self._scan_n[o] += 1
         self._scan_n[o + 1] += 1 if fired else 0
+        self._flush_counts()
+
+    def _flush_counts(self):
         if _MEMO_DIR:
             with open(os.path.join(_MEMO_DIR, f"scan.{os.getpid()}.cnt"), "w") as f:
                 json.dump(self._scan_n, f)
@@ -921,6 +933,80 @@ class Harness:
             )
         return viols
 
+    # -------------------------------------------------------------- listings consumed across a refresh
+    def _iterables(self):
+        """Every way xonsh hands out the command listing lazily: name -> (factory, item -> command name)."""
+        from xonsh.completers.commands import complete_command
+        from xonsh.parsers.completion_context import CommandContext
+
+        cc = self.cc()
+        return {
+            "iter(cache)": (lambda: iter(cc), str),
+            "iter_commands()": (lambda: iter(cc.iter_commands()), lambda it: it[0]),
+            "all_commands": (lambda: iter(cc.all_commands), str),
+            "lazyiter()": (lambda: cc.lazyiter(), str),
+            "complete_command": (lambda: complete_command(CommandContext(args=(), arg_index=0, prefix="")), str),
+        }
+
+    def _listing(self):
+        try:
+            return set(iter(self.cc()))
+        except Exception:  # noqa: BLE001 - judged by the cache-iter view
+            return set()
+
+    def _iter_begin(self):
+        """Start each lazy listing on the state before the event and consume k = 0 / 1 items."""
+        before = self._listing()
+        out = []
+        for vname, (factory, nameof) in self._iterables().items():
+            for k in (0, 1):
+                rec = {"view": vname, "k": k, "seen": [], "before": before, "it": None, "nameof": nameof, "err": None}
+                try:
+                    rec["it"] = factory()
+                    for _ in range(k):
+                        rec["seen"].append(nameof(next(rec["it"])))
+                except StopIteration:
+                    pass
+                except Exception as e:  # noqa: BLE001
+                    rec["err"] = f"{type(e).__name__}: {e}"
+                out.append(rec)
+        return out
+
+    def _iter_finish(self, its):
+        """Resume the half-consumed listings after the event and the refresh it caused: they must not
+        raise, and must deliver every command the complete listing shows both before and after."""
+        after = self._listing()
+        st = None
+        viols = []
+        for rec in its:
+            if rec["err"] is None and rec["it"] is not None:
+                try:
+                    for item in rec["it"]:
+                        rec["seen"].append(rec["nameof"](item))
+                except Exception as e:  # noqa: BLE001
+                    rec["err"] = f"{type(e).__name__}: {e}"
+            self._scan_n[4] += 1
+            if rec["k"] == 1 and rec["seen"] and rec["before"] != after:
+                self._scan_n[5] += 1  # really half consumed, and the refresh changed the table
+            must = sorted(rec["before"] & after)
+            missed = sorted(set(must) - set(rec["seen"]))
+            if rec["err"] is None and not missed:
+                continue
+            st = st or self.state()
+            sig = "raised-" + rec["err"].split(":")[0] if rec["err"] else "missed-command"
+            viols.append(
+                {
+                    "key": f"iter-resumed:{rec['view']}:{sig}",
+                    "clause": "a listing that is being consumed stays valid across a refresh (never raises, shows every command present before and after)",
+                    "case": {"view": rec["view"], "consumed_before_event": rec["k"], "alphabet": self.level, "state": st},
+                    "observed": {"seen": rec["seen"], "error": rec["err"]},
+                    "expected": {"no_exception": True, "must_contain": must},
+                    "note": f"complete listing before the event {sorted(rec['before'])}, after {sorted(after)}",
+                }
+            )
+        self._flush_counts()
+        return viols
+
     # -------------------------------------------------------------- transition
     def step(self, ev, check):
         if not check:
@@ -934,13 +1020,14 @@ class Harness:
             pre = {k: v["sig"] for k, v in self.mismatches().items()}
             self._pre = (hk, pre)
         f0, g0 = self.scan_fired, self.fault_fired
+        its = self._iter_begin()
         self.apply(ev)
         self._settle(ev)
         if ev[0] == "during-scan":
             self._count_scan(self.scan_fired - f0)
         elif ev[0] == "scan-fault":
             self._count_scan(self.fault_fired - g0, fault=True)
-        viols = []
+        viols = self._iter_finish(its)
         envp = [self.rel(x) for x in self.xsh.env["PATH"]]
         if envp != self.m_path:
             viols.append(
@@ -1015,7 +1102,7 @@ def _phase(ctx, level, d0, dmax, deadline):
                 os.unlink(os.path.join(_MEMO_DIR, fn))
         t = time.time()
         r = seqx.bfs(_factory, d, ctx, budget_s=None, chunk=2)
-        r["scan"] = [0, 0, 0, 0]
+        r["scan"] = [0, 0, 0, 0, 0, 0]
         for fn in os.listdir(_MEMO_DIR):
             if fn.startswith("scan."):
                 with open(os.path.join(_MEMO_DIR, fn)) as f:
@@ -1055,6 +1142,12 @@ def run(ctx):
     for level, d0, dmax in plan:
         ctx.log(f"phase alphabet={level} depth {d0}..{dmax}")
         phases.append(_phase(ctx, level, d0, dmax, deadline))
+    # schedule part: a refresh in one thread while another thread queries the cache (pysched)
+    global _ACTIVE
+    _ACTIVE = None  # the listing/scandir seams of the BFS part stay installed but inert
+    from . import c08_sched
+
+    sched = c08_sched.run_part(ctx)
     n_states, n_amb, amb_samples = 0, 0, []
     for fn in sorted(os.listdir(_MEMO_DIR)):
         if not fn.endswith(".json"):
@@ -1083,14 +1176,21 @@ def run(ctx):
         depth_completed=max(ph["depth_completed"] for ph in phases),
         depth_completed_by_alphabet={ph["level"]: ph["depth_completed"] for ph in phases},
         depth_requested={ph["level"]: ph["depth_requested"] for ph in phases},
-        exhaustive=all(ph["exhaustive"] for ph in phases),
-        caps_hit=[f"{ph['level']}: {ph['capped']}" for ph in phases if ph["capped"]] or None,
+        exhaustive=all(ph["exhaustive"] for ph in phases) and sched["exhaustive"],
+        caps_hit=([f"{ph['level']}: {ph['capped']}" for ph in phases if ph["capped"]] + ([f"sched: {sched['capped']}"] if sched["capped"] else [])) or None,
         phases=[{k: ph[k] for k in ("level", "alphabet", "depth_requested", "depth_completed", "states", "transitions", "level_sizes", "capped")} for ph in phases],
         during_scan_transitions=sum(ph["scan"][0] for ph in phases),
         during_scan_events_landed_mid_refresh=sum(ph["scan"][1] for ph in phases),
         scan_fault_transitions=sum(ph["scan"][2] for ph in phases),
         scan_faults_raised_inside_a_refresh=sum(ph["scan"][3] for ph in phases),
+        listings_resumed_across_an_event=sum(ph["scan"][4] for ph in phases),
+        listings_half_consumed_and_table_changed=sum(ph["scan"][5] for ph in phases),
         not_executable_for_us_kinds_explored=all(ph["foreign_ok"] for ph in phases),
+        sched_schedules=sched["executions"],
+        sched_steps=sched["steps"],
+        sched_preemption_bound=sched["preemption_bound"],
+        sched_schedules_per_program=sched["schedules_per_program"],
+        sched_exhaustive=sched["exhaustive"],
         lookups_per_state=len(LOOKUPS),
         views_per_lookup=len(SEL_VIEWS) + len(BOOL_VIEWS),
         distinct_fs_path_cwd_states_all_phases=n_states,
@@ -1116,6 +1216,10 @@ def replay(rec):
     global _MEMO_DIR
     _MEMO_DIR = None
     case = rec["case"]
+    if "program" in case:
+        from . import c08_sched
+
+        return c08_sched.replay_part(rec)
     h = Harness("full")
     h.reset()
     hist = case.get("history") or []
